@@ -25,4 +25,6 @@ INVARIANT AbsentNotFound
 INVARIANT HetBetAnswersOwn
 INVARIANT BetFixAnswers
 INVARIANT AsIsAlwaysFallsBack
+INVARIANT BetRoundTrip
+INVARIANT CrcSectorAccepted
 CHECK_DEADLOCK FALSE
